@@ -9,14 +9,14 @@ import (
 
 // EPConfig is a stack-neutral description of an endpoint configuration.
 type EPConfig struct {
-	Suites       []uint16 `json:"suites"`        // nil: library default
-	Ident        string   `json:"ident"`         // which key pairs: "srv","srv2","cli","cli-sig","none","untrusted","expired","future","cli-untrusted","cli-expired","cli-wrongeku","rsa","ed"
-	Roots        string   `json:"roots"`         // "ca" (default), "other", "none"
-	Auth         int      `json:"auth"`          // ClientAuthType (server)
+	Suites       []uint16 `json:"suites"` // nil: library default
+	Ident        string   `json:"ident"`  // which key pairs: "srv","srv2","cli","cli-sig","none","untrusted","expired","future","cli-untrusted","cli-expired","cli-wrongeku","rsa","ed"
+	Roots        string   `json:"roots"`  // "ca" (default), "other", "none"
+	Auth         int      `json:"auth"`   // ClientAuthType (server)
 	ALPN         []string `json:"alpn"`
 	ServerName   string   `json:"sni"`
 	Insecure     bool     `json:"insecure"`
-	Cache        string   `json:"cache"`         // "" none; otherwise the name of a cache shared through Registry
+	Cache        string   `json:"cache"` // "" none; otherwise the name of a cache shared through Registry
 	CacheCap     int      `json:"cache_cap"`
 	PMTU         int      `json:"pmtu"`
 	ReplayWindow int      `json:"replay_window"`
